@@ -1021,12 +1021,30 @@ def _div_points(eb, signed):
     return out
 
 
+def _div_magnitude_points(eb, signed):
+    """numerators of every bit length against the smallest divisors, presented in all lanes at once: fast paths
+    guarded by a magnitude test on the whole vector (all lanes below 2^k) are only taken by such vectors"""
+    M = (1 << eb) - 1
+    top = eb - 1 if signed else eb
+    out = []
+    for h in range(2, top):
+        b = 1 << h
+        fill = 0x5A5A5A5A5A5A5A5A & (b - 1)
+        for n in (b | fill, b + 2, (b << 1) - 2 if h + 1 < top or not signed else b + 6, b | (b >> 1) | 1):
+            if n > ((1 << (eb - 1)) - 1 if signed else M):
+                continue
+            for d in (1, 3, 7, 10):
+                out.append((n, d))
+    return out
+
+
 def with_div_points(judge, nname="a", dname="b", uniform=False):
     def j(ctx, inst, S):
         import lanecheck
         import runner
         old = lanecheck.EXTRA_POINTS[0]
-        lanecheck.EXTRA_POINTS[0] = [{nname: n, dname: d} for n, d in _div_points(ctx.vt.eb, ctx.vt.signed)]
+        lanecheck.EXTRA_POINTS[0] = [{nname: n, dname: d} for n, d in _div_points(ctx.vt.eb, ctx.vt.signed)] + [
+            {nname: n, dname: d, "_uniform": True} for n, d in _div_magnitude_points(ctx.vt.eb, ctx.vt.signed)]
         lanecheck.EXTRA_UNIFORM[0] = uniform
         try:
             return (judge or runner.judge_default)(ctx, inst, S)
@@ -1573,6 +1591,130 @@ def judge_frexp_e(ctx, inst, S):
     return v, d, rule, w
 
 
+def _rebuild(t, kids):
+    """t with its term children replaced, through the simplifying constructors"""
+    o, w = t[0], t[1]
+    it = iter(kids)
+    args = [next(it) if isinstance(x, tuple) else x for x in t[2:]]
+    if o == "concat":
+        return T.concat(args)
+    if o == "slice":
+        return T.slice_(args[0], t[3], w)
+    if o == "rep":
+        return T.rep(w, args[0])
+    if o == "not":
+        return T.not_(args[0])
+    if o in ("and", "or", "xor", "add", "mul"):
+        return T.nary(o, w, args)
+    if o == "select":
+        return T.select(args[0], args[1], args[2])
+    if o == "icmp":
+        return T.icmp(args[0], args[1], args[2])
+    return T.mk(o, w, *args)
+
+
+_FCMP_TRUTH = {"oeq": "e", "ogt": "g", "oge": "ge", "olt": "l", "ole": "le", "one": "lg", "ord": "leg",
+               "ueq": "eu", "ugt": "gu", "uge": "geu", "ult": "lu", "ule": "leu", "une": "lgu", "uno": "u"}
+
+
+def judge_fmaxmin_cases(which):
+    """C fmax / fmin as a finite case analysis (a static decision, no values involved): if a lane touches its
+    operands only through float comparisons between them (and NaN tests), substituting the truth value every
+    comparison has under each of the six order types of (a, b) - a < b, a > b, a == b, only a NaN, only b NaN,
+    both NaN - must simplify the lane to exactly the operand the definition selects.  Complete for that
+    fragment; anything else falls back to the closed-form comparison."""
+    from common import HOLDS, REFUTED, UNDECIDED
+
+    def rel(ot, x_is_a, y_is_a):
+        # relation of (x, y) under the order type: one of l g e u
+        if x_is_a == y_is_a:
+            nan = {"a_nan": x_is_a, "b_nan": not x_is_a, "both_nan": True}.get(ot, False)
+            return "u" if nan else "e"
+        if ot in ("a_nan", "b_nan", "both_nan"):
+            return "u"
+        r = {"lt": "l", "gt": "g", "eq": "e"}[ot]
+        return r if x_is_a else {"l": "g", "g": "l", "e": "e"}[r]
+
+    def j(ctx, inst, S):
+        vt = ctx.vt
+        eb = vt.eb
+        rule = ("%s: under each order type of (a, b) every comparison in the lane has a fixed truth value; the lane must "
+                "then simplify to the operand C %s selects (the other operand when exactly one is NaN)" % (inst.op, inst.op))
+        actual = S.ret
+        ok = actual is not None and actual[1] == vt.bits and not (S.flags & {"loop", "call", "asm", "indirect-call"}) and not S.unknown
+        want = {"lt": "b", "gt": "a", "eq": "ab", "a_nan": "b", "b_nan": "a", "both_nan": "ab"}
+        if which == "min":
+            want = dict(want, lt="a", gt="b")
+        cases = 0
+        if ok:
+            for i in range(vt.n):
+                a, b = T.slice_(ctx.args["a"], i * eb, eb), T.slice_(ctx.args["b"], i * eb, eb)
+                t = T.slice_(actual, i * eb, eb)
+                for ot in ("lt", "gt", "eq", "a_nan", "b_nan", "both_nan"):
+                    memo = {}
+                    bad = []
+
+                    def sub(u):
+                        r = memo.get(id(u))
+                        if r is not None:
+                            return r
+                        if u is a or u is b or u[0] in ("const", "arg"):
+                            r = u
+                        elif u[0] == "fcmp":
+                            x, y = u[3], u[4]
+                            xs = x is a or x is b
+                            ys = y is a or y is b
+                            if xs and ys:
+                                r = T.const(1, int(rel(ot, x is a, y is a) in _FCMP_TRUTH[u[2]]))
+                            elif (xs or ys) and u[2] in ("ord", "uno") and (y if xs else x)[0] == "const":
+                                z = x if xs else y
+                                nan = {"a_nan": z is a, "b_nan": z is b, "both_nan": True}.get(ot, False)
+                                r = T.const(1, int(nan == (u[2] == "uno")))
+                            else:
+                                bad.append(u)
+                                r = u
+                        else:
+                            r = _rebuild(u, [sub(x) for x in u[2:] if isinstance(x, tuple)])
+                        memo[id(u)] = r
+                        return r
+                    r = sub(t)
+                    if bad:
+                        ok = False
+                        break
+                    pick = "a" if r is a else "b" if r is b else None
+                    if pick is None:
+                        ok = False
+                        break
+                    if pick not in want[ot]:
+                        # confirm on a representative before reporting
+                        import lanecheck
+                        one, two, nan = (0x3F800000, 0x40000000, 0x7FC00000) if eb == 32 else (
+                            0x3FF0000000000000, 0x4000000000000000, 0x7FF8000000000000)
+                        va, vb = {"lt": (one, two), "gt": (two, one), "eq": (one, one), "a_nan": (nan, one), "b_nan": (one, nan),
+                                  "both_nan": (nan, nan)}[ot]
+                        args = [0] * len(ctx.argspecs)
+                        args[ctx.argidx["a"]] = sum(va << (l * eb) for l in range(vt.n))
+                        args[ctx.argidx["b"]] = sum(vb << (l * eb) for l in range(vt.n))
+                        lanecheck.NUMEQ[0] = True
+                        try:
+                            w = lanecheck._one_env(actual, inst.expect(ctx), args, ctx.names, eb, None, "RN", True)
+                        finally:
+                            lanecheck.NUMEQ[0] = False
+                        if w is not None:
+                            w["order_type"] = ot
+                            return REFUTED, "lane %d selects operand %s when %s: %s" % (i, pick, ot, T.show(t, 4, ctx.names)), rule, w
+                        ok = False
+                        break
+                    cases += 1
+                if not ok:
+                    break
+        if ok and cases:
+            return HOLDS, "%d (lane, order type) cases, each simplifies to the operand the definition selects; %s" % (
+                cases, T.show(T.slice_(actual, 0, eb), 3, ctx.names)), rule, None
+        return judge_numeq(ctx, inst, S)
+    return j
+
+
 def fam_cmathx(vt, cfg):
     if not vt.is_float:
         return []
@@ -1588,9 +1730,9 @@ def fam_cmathx(vt, cfg):
         i.budget_s = 2 if TIER == "quick" else 8
         I.append(i)
     add(Inst("fmax", VV, "V", "avel::fmax(a, b)", lanewise2(lambda c, x, y: T.op("spec:c_fmax", eb, x, y))),
-        env_ok=_no_snan_lanes(vt, ("a", "b")))
+        env_ok=_no_snan_lanes(vt, ("a", "b")), judge=judge_fmaxmin_cases("max"))
     add(Inst("fmin", VV, "V", "avel::fmin(a, b)", lanewise2(lambda c, x, y: T.op("spec:c_fmin", eb, x, y))),
-        env_ok=_no_snan_lanes(vt, ("a", "b")))
+        env_ok=_no_snan_lanes(vt, ("a", "b")), judge=judge_fmaxmin_cases("min"))
     add(Inst("fdim", VV, "V", "avel::fdim(a, b)", lanewise2(lambda c, x, y: T.op("spec:c_fdim", eb, x, y))),
         env_ok=_fdim_domain(vt))
     add(Inst("frac", A, "V", "avel::frac(a)", lanewise1(lambda c, x: T.op("spec:c_frac", eb, x))))
